@@ -1,6 +1,8 @@
 -------------------------- MODULE TraceClientBody --------------------------
 (* Trace validation of the client's body construction against C11.          *)
-(* case  : one abstract payload (reset line)                                *)
+(* case  : one request, or a batch of requests overlapping in time (all     *)
+(*         built before the first is sent, or submitted concurrently); the  *)
+(*         property is per request, whatever else is in flight              *)
 (* event : sent {err, supplied:{payload sha, files [[sha]]}, auth_saw:[sha], *)
 (*         producers, body_len, body_sha, ct, ctmedia, boundary, kind,       *)
 (*         raw (urlencoded body bytes), pairs, parts, payload}               *)
@@ -11,8 +13,9 @@ VARIABLES l, st, skipping, fails, cs
 
 U == INSTANCE ClientURL WITH Variant <- "fixed"
 
-BInit(e) == [media |-> e.media, payload |-> e.payload.kind, fields |-> e.fields, files |-> e.files,
-             auth |-> e.auth, k |-> e.k]
+Req(r) == [media |-> r.media, method |-> r.method, presetct |-> r.presetct, payload |-> r.payload.kind,
+           fields |-> r.fields, files |-> r.files, auth |-> r.auth, k |-> r.k]
+BInit(e) == [reqs |-> [i \in 1..Len(e.reqs) |-> Req(e.reqs[i])]]
 
 Ids(e) == [payload |-> e.supplied.payload, files |-> e.supplied.files]
 
@@ -25,14 +28,14 @@ Obs(e) == [err |-> e.err, ctmedia |-> e.ctmedia, boundary |-> e.boundary, kind |
 BAllowed(s, e) ==
   CASE e.ev = "sent" -> /\ ~e.err
                         /\ RawOK(e)
-                        /\ BodyOK(s, Ids(e), Obs(e))
-                        /\ AuthOK(s, e.auth_saw, e.body_sha)
+                        /\ BodyOK(s.reqs[e.req], Ids(e), Obs(e))
+                        /\ AuthOK(s.reqs[e.req], e.auth_saw, e.body_sha)
     [] OTHER -> FALSE
 
 BWhy(s, e) ==
   CASE e.ev = "sent" -> IF e.err THEN "error"
                         ELSE IF ~RawOK(e) THEN "form-fields"
-                        ELSE IF ~BodyOK(s, Ids(e), Obs(e)) THEN WhyBody(s, Ids(e), Obs(e))
+                        ELSE IF ~BodyOK(s.reqs[e.req], Ids(e), Obs(e)) THEN WhyBody(s.reqs[e.req], Ids(e), Obs(e))
                         ELSE "auth-saw-other-bytes-than-sent"
     [] OTHER -> "unknown-event"
 
